@@ -1,23 +1,27 @@
 #!/bin/sh
-# usage: ./seedcheck.sh <seeded-dir>   — applies seeded/<dir>/patch.diff to /repo, runs every quick check,
-# prints which properties report a violation, and restores /repo. Never leaves /repo modified.
+# usage: ./seedcheck.sh <seeded-dir>  — applies seeded/<dir>/patch.diff to a scratch worktree of /repo's HEAD
+# (outside /repo and /verif, removed afterwards), runs every registered quick check against it and prints
+# which properties report a violation. /repo itself is never modified.
 cd "$(dirname "$0")"
 d="seeded/$1"
 [ -f "$d/patch.diff" ] || { echo "no $d/patch.diff"; exit 2; }
-if [ -n "$(git -C /repo status --porcelain)" ]; then echo "/repo is dirty; refusing"; exit 2; fi
-git -C /repo apply "$(pwd)/$d/patch.diff" || { echo "patch does not apply"; exit 2; }
-trap 'git -C /repo checkout -- . ; git -C /repo clean -fdq' EXIT
+wt=$(mktemp -d /tmp/seedchk.XXXXXX); rmdir "$wt"
+git -C /repo worktree add -q --detach "$wt" HEAD || exit 2
+trap 'git -C /repo worktree remove --force "$wt" 2>/dev/null; rm -rf "$wt" /tmp/seedcheck.$$' EXIT
+git -C "$wt" apply "$(pwd)/$d/patch.diff" || { echo "patch does not apply"; exit 2; }
 ids=$(python3 -c "import json;print(' '.join(c['property_id'] for c in json.load(open('MANIFEST.json'))['checks']))")
 mkdir -p /tmp/seedcheck.$$
 for id in $ids; do
-  ( ./bin/tablelint check -p "$id" -tier quick -repo /repo -verif "$(pwd)" -no-evidence > /tmp/seedcheck.$$/$id.out 2>&1; echo $? > /tmp/seedcheck.$$/$id.rc ) &
+  ( ./bin/tablelint check -p "$id" -tier quick -repo "$wt" -verif "$(pwd)" -no-evidence > /tmp/seedcheck.$$/$id.out 2>&1; echo $? > /tmp/seedcheck.$$/$id.rc ) &
 done
 wait
+caught=""
 for id in $ids; do
   rc=$(cat /tmp/seedcheck.$$/$id.rc)
   if [ "$rc" != "0" ]; then
+    caught="$caught $id"
     echo "== $id exit=$rc"
-    grep -E "^(VIOLATED|UNDECIDED|tablelint:)" /tmp/seedcheck.$$/$id.out | cut -c1-220
+    grep -E "^(VIOLATED|UNDECIDED|tablelint:)" /tmp/seedcheck.$$/$id.out | cut -c1-240
   fi
 done
-rm -rf /tmp/seedcheck.$$
+echo "CAUGHT-BY:${caught:- none}"
